@@ -273,11 +273,23 @@ static const struct xelem *offered[MAXOFFER];
 static int noffered, accept_at;                 /* accept the accept_at-th offered (1-based); 0 = reject all */
 static const struct xelem *accept_exact;        /* audit: accept exactly this element */
 
+/* in some lookups the visit function looks ANOTHER key up in the same table (a lookup is a read; that it cleans buckets
+ * of a pending rehash on the side is the library's business and must not disturb the lookup it is nested in) */
+static struct cstl_hash *nest_tab; static size_t nest_key; static const struct xelem *nest_expect; static int nest_active, nest_done, nest_bad;
+
 static int find_visit(const void *obj, void *priv)
 {
     CB_ENTER();
     int r = 0;
     (void)priv;
+    if (nest_tab && !nest_active && !nest_done) {
+        const void *got;
+        nest_active = 1; nest_done = 1;
+        g_inlib = 1; got = cstl_hash_find(nest_tab, nest_key, NULL, NULL); g_inlib = 0;
+        nest_active = 0;
+        if (ELMN(got) != nest_expect && !(got && nest_expect && XN(ELM(got))->key == nest_key)) nest_bad = 1;
+        PROBE("find_nested_in_find_visit");
+    }
     obj = ELM(obj);
     if (noffered < MAXOFFER) offered[noffered] = obj;
     noffered++;
@@ -428,7 +440,9 @@ static void audit_table(int t, int full)
     unsigned saved = ncalls;
     uint64_t sh = 0x4a5;
     static void *r;
-    const char *P = prop_of(t, O_FIND);
+    /* in the C19 batch an element that the incremental rehash loses is that property's business too: a rehash that
+     * reports completion with nodes left behind has not finished */
+    const char *P = mode_g == 19 ? "C19" : prop_of(t, O_FIND);
 
     if (!m->inited) {
         if (cstl_hash_size(&tb[t]) != 0) VIOLP(prop_of(t, g_run.opkind), "size", "uninitialised/cleared table %d reports size %zu", t, cstl_hash_size(&tb[t]));
@@ -801,7 +815,17 @@ static void x_once(const plan_t *p)
             nk = count_key(t, key);
             noffered = 0; accept_exact = NULL;
             accept_at = vmode == 1 ? 1 + (int)((o->a[3] >> 20) % 4) : 0;
+            nest_tab = NULL; nest_done = 0; nest_bad = 0;
+            if (vmode != 0 && (o->a[3] >> 9 & 3) == 1 && m->nlive > 0 && p->mode != 17) {
+                /* nest a lookup of some held key (or of a key nobody holds) */
+                int pick = (int)((o->a[3] >> 12) % (uint64_t)(m->nlive + 1));
+                nest_tab = &tb[t];
+                if (pick < m->nlive) { nest_key = XN(m->live[pick])->key; nest_expect = m->live[pick]; }
+                else { nest_key = (size_t)keys + 77; nest_expect = count_key(t, nest_key) ? m->live[0] : NULL; if (nest_expect) nest_tab = NULL; }
+            }
             TRY(ret = cstl_hash_find(&tb[t], key, vmode == 0 ? NULL : find_visit, NULL)); ret = ELMN(ret);
+            if (nest_tab && nest_bad) { nest_tab = NULL; VIOL("nested_find", "a lookup of key %zu made from inside the visit function of another lookup on the same table returned the wrong answer", nest_key); }
+            nest_tab = NULL;
             c = ncalls; wk = g_work - g_work_at_try;
             if (c17_after(t, "find")) return;
             if (g_aborted) VIOL(g_aborted == 2 ? "assert" : "abort", "find aborted");
@@ -828,7 +852,8 @@ static void x_once(const plan_t *p)
                 }
             }
             EVT("find", t, key, noffered);
-            c19_after_keyed(t, c, was_settled);
+            if (nest_done) { if (!m->builtin) m->keyed += 2; c19_refresh(t); }      /* two lookups in one: the per-operation consultation counts do not apply */
+            else c19_after_keyed(t, c, was_settled);
             break;
         }
         case O_ERASE: do_erase: {
